@@ -135,5 +135,14 @@ func corpus() []*Case {
 			add(true, tx(0, 4, 9)).head(0, st(12, 3, rich)).add(false, tx(0, 5, 9), tx(0, 5, 12))
 		out = append(out, b.done("validation verdicts"))
 	}
+	// refused transactions, one per kind (Qi transactions: the error-merging path of addTxs)
+	{
+		b := newCB(wide, st(1, 0, rich))
+		b.add(false, tx(0, 0, 5))
+		for _, k := range []string{"chainid", "zone", "external", "qi-noinput", "qi-inactive", "qi-inactive2"} {
+			b.c.Ops = append(b.c.Ops, OpJS{K: "bad", Bad: k})
+		}
+		out = append(out, b.done("refused transactions"))
+	}
 	return out
 }
